@@ -69,6 +69,13 @@ def server_script(behaviour, unix):
             state['n_auth'] += 1
             if behaviour == 'refuse':
                 return b'REJECTED EXTERNAL\r\n'
+            # a refusal may also be spelled ERROR (the client moves on just the same); the server keeps the socket open
+            if behaviour == 'refuse-error':
+                return b'ERROR "not here"\r\n'
+            if behaviour == 'refuse-mixed':
+                return b'REJECTED EXTERNAL DBUS_COOKIE_SHA1 ANONYMOUS\r\n' if state['n_auth'] == 1 else b'ERROR\r\n'
+            if behaviour == 'second-mechanism-error' and state['n_auth'] < 3:
+                return b'ERROR "try another"\r\n'
             if behaviour == 'second-mechanism' and state['n_auth'] < 3:
                 return b'REJECTED ANONYMOUS\r\n'
             if behaviour == 'external-data' and line.startswith(b'AUTH EXTERNAL'):
@@ -99,10 +106,10 @@ def server_script(behaviour, unix):
 
 
 BEHAVIOURS = ['plain', 'second-mechanism', 'external-data', 'fd-error', 'big-endian', 'refuse', 'hello-error',
-              'hello-error-nobody', 'hello-error-int']
+              'hello-error-nobody', 'hello-error-int', 'refuse-error', 'refuse-mixed', 'second-mechanism-error']
 
 
-FAILING = ('refuse', 'hello-error', 'hello-error-nobody', 'hello-error-int')
+FAILING = ('refuse', 'hello-error', 'hello-error-nobody', 'hello-error-int', 'refuse-error', 'refuse-mixed')
 
 
 class Wire:
